@@ -97,5 +97,40 @@ def check_subtype_kind():
     return obs
 
 
+def check_typestate_key():
+    """the four cache entry points of TypeState index the per-TypeInfo cache by their `kind` parameter
+    itself: never a slice / projection of it, and `kind` is not rebound"""
+    path = os.path.join(REPO, "mypy/typestate.py")
+    tree = ast.parse(open(path).read())
+    cls = next((n for n in tree.body if isinstance(n, ast.ClassDef) and n.name == "TypeState"), None)
+    if cls is None:
+        return [{"name": "typestate-key/located", "status": "unknown", "where": "TypeState not found"}]
+    FNS = ("is_cached_subtype_check", "is_cached_negative_subtype_check", "record_subtype_cache_entry", "record_negative_subtype_cache_entry")
+    obs = []
+    for fname in FNS:
+        fn = next((m for m in cls.body if isinstance(m, ast.FunctionDef) and m.name == fname), None)
+        if fn is None:
+            obs.append({"name": f"typestate-key/{fname}", "status": "unknown", "where": f"TypeState.{fname} not found"})
+            continue
+        rebound = any(isinstance(n, (ast.Assign, ast.AugAssign, ast.AnnAssign)) and any(isinstance(t, ast.Name) and t.id == "kind" for t in (n.targets if isinstance(n, ast.Assign) else [n.target]))
+                      for n in ast.walk(fn))
+        keyed, bad = 0, []
+        for n in ast.walk(fn):
+            # every use of `kind` must be as a whole key: cache.get(kind) / cache.setdefault(kind, ...) / cache[kind]
+            if isinstance(n, ast.Name) and n.id == "kind":
+                keyed += 1
+        whole = 0
+        for n in ast.walk(fn):
+            if isinstance(n, ast.Call) and isinstance(n.func, ast.Attribute) and n.func.attr in ("get", "setdefault") and n.args and isinstance(n.args[0], ast.Name) and n.args[0].id == "kind":
+                whole += 1
+            if isinstance(n, ast.Subscript) and isinstance(n.slice, ast.Name) and n.slice.id == "kind" and not (isinstance(n.value, ast.Name) and n.value.id == "kind"):
+                whole += 1
+        ok = not rebound and keyed > 0 and keyed == whole
+        obs.append({"name": f"typestate-key/indexed-by-the-full-kind/{fname}", "status": "discharged" if ok else "refuted", "where": f"mypy/typestate.py TypeState.{fname}",
+                    "detail": "" if ok else f"`kind` occurs {keyed}x but only {whole}x as a whole dictionary key (or is rebound)", "key": f"typestate-key:{fname}", "confirmed": True})
+    return obs
+
+
 def targets(tier):
-    return [StaticCheck("subtypes.cache_key_frame", check_subtype_kind, note="E4 frame: SubtypeContext flags vs build_subtype_kind")]
+    return [StaticCheck("subtypes.cache_key_frame", check_subtype_kind, note="E4 frame: SubtypeContext flags vs build_subtype_kind"),
+            StaticCheck("typestate.cache_indexed_by_full_kind", check_typestate_key, note="E4: the cache entry points use the whole kind tuple as the key")]
